@@ -239,3 +239,7 @@ PROPERTY = Property(
     rule="generated games over the widest valid domain; oracle: no exception of any kind, every returned number finite; distinct by SHA-1 of the case",
     assumptions=["sigma = 0 is only generated together with an effective tau >= 1e-6 beta (a tau whose square underflows is not 'tau > 0' numerically)"],
 )
+
+from vf import opt as _opt  # noqa: E402
+
+PROPERTY.clauses.append(_opt.optimised("C08", next(c for c in PROPERTY.clauses if c.name == "totality"), quick=64, thorough=640))
